@@ -1366,6 +1366,11 @@ int x509_display_text_from_der(int *tag, const uint8_t **d, size_t *dlen, const 
 
 	if ((ret = asn1_tag_from_der_readonly(tag, in, inlen)) != 1) {
 		if (ret < 0) error_print();
+		else {
+			*tag = -1;
+			*d = NULL;
+			*dlen = 0;
+		}
 		return ret;
 	}
 	switch (*tag) {
@@ -1375,6 +1380,10 @@ int x509_display_text_from_der(int *tag, const uint8_t **d, size_t *dlen, const 
 	case ASN1_TAG_BMPString:
 		break;
 	default:
+		// an absent OPTIONAL DisplayText
+		*tag = -1;
+		*d = NULL;
+		*dlen = 0;
 		return 0;
 	}
 
@@ -1426,7 +1435,13 @@ int x509_notice_reference_from_der(
 
 	if ((ret = asn1_sequence_from_der(&d, &dlen, in, inlen)) != 1) {
 		if (ret < 0) error_print();
-		else error_print();
+		else {
+			// an absent OPTIONAL NoticeReference
+			*org_tag = -1;
+			*org = NULL;
+			*org_len = 0;
+			*notice_numbers_cnt = 0;
+		}
 		return ret;
 	}
 	if (x509_display_text_from_der(org_tag, org, org_len, &d, &dlen) != 1
